@@ -168,7 +168,8 @@ namespace Model
 
 theorem base_fields (m : Message) (L a b : Nat) (r : RState) (h : m.base L a b = .ok r) :
     r.counts = {} ∧ r.id = m.id ∧ r.flags = m.flags := by
-  unfold Message.base at h
+  have h := base_ok h
+  unfold Message.base0 at h
   split at h
   · simp at h
   · rename_i r1 h1
